@@ -1,5 +1,6 @@
 import Fpdec.Lemmas.Text
 import Fpdec.Kernels.Format
+import Fpdec.Props.C05
 import Fpdec.Props.C11_Sites
 
 /-!
@@ -43,5 +44,119 @@ theorem kernel_decimal_display_fmt (prof : Profile) (tm : Mode) (d : Dec) (f : S
 theorem kernel_display_spec (prof : Profile) (tm : Mode) (f : Std.FmtSpec) (d : Dec) (hd : Dom d) :
     Gen.K.decimal_display_fmt prof tm d f = .ok (Spec.displaySpec tm f d.coeff d.nfrac) := by
   rw [Kernels.decimal_display_fmt_eq prof tm d f hd]; exact display_spec prof tm f d hd
+
+/-! ### algebraic laws: a precision against scaling (`P ≥ p`) and against `round` (`P < p`)
+`{ f with prec := … }` stands for "the same fill / alignment / `+` / `0` / width, that precision". -/
+
+private theorem scaled_nonneg_iff (a : Int) (k : Nat) : a * (10 : Int) ^ k ≥ 0 ↔ a ≥ 0 :=
+  Int.mul_nonneg_iff_of_pos_right (pow10_pos k)
+
+/-- with no width and no `+` the padding rule only prepends the sign -/
+private theorem pad_plain (P : Option Nat) (b : Bool) (buf : List Nat) :
+    Std.padIntegral { prec := P } b buf = (if b then [] else [45]) ++ buf := by
+  unfold Std.padIntegral
+  cases b <;> simp
+
+/-- Display without a precision: the own digits of the Decimal -/
+private theorem displaySpec_no_prec (tm : Mode) (f : Std.FmtSpec) (a : Int) (P : Nat) :
+    Spec.displaySpec tm { f with prec := none } a P =
+      Std.padIntegral f (decide (a ≥ 0)) (Spec.render ((a.natAbs : Nat) : Int) P) := by
+  unfold Spec.displaySpec
+  simp only [ge_iff_le, Nat.le_refl, if_true, Nat.sub_self, Int.pow_zero, Int.mul_one]
+  rfl
+
+/-- a precision `P` with `p ≤ P ≤ 18`: the magnitude of the coefficient scaled to `P` digits, i.e. the digits of `x` followed by
+    `P - p` zeros (any flags; whether or not the scaled coefficient fits an i128) -/
+theorem display_prec_ge (prof : Profile) (tm : Mode) (f : Std.FmtSpec) (x : Dec) (P : Nat) (hx : Dom x) (hf : f.prec = some P)
+    (hP : x.nfrac ≤ P) (hP18 : P ≤ 18) :
+    display prof tm f x = .ok (Std.padIntegral f (decide (x.coeff ≥ 0))
+      (Spec.render ((x.coeff * (10 : Int) ^ (P - x.nfrac)).natAbs) P)) := by
+  rw [display_spec prof tm f x hx, displaySpec_unfold tm f _ _ P hf]
+  have hm : min P 18 = P := Nat.min_eq_left hP18
+  have hge : P ≥ x.nfrac := hP
+  simp only [hm, hge, if_true]
+
+/-- with default flags: exactly the canonical text of `x.coeff · 10^(P-p)` with `P` fractional digits — the text of `x` padded
+    with zeros -/
+theorem display_prec_ge_text (prof : Profile) (tm : Mode) (x : Dec) (P : Nat) (hx : Dom x) (hP : x.nfrac ≤ P) (hP18 : P ≤ 18) :
+    display prof tm { prec := some P } x = .ok (Spec.render (x.coeff * (10 : Int) ^ (P - x.nfrac)) P) := by
+  rw [display_prec_ge prof tm _ x P hx rfl hP hP18, pad_plain, render_natCast, render_eq]
+  by_cases h : x.coeff ≥ 0
+  · have h' : ¬ x.coeff * (10 : Int) ^ (P - x.nfrac) < 0 := by have := (scaled_nonneg_iff x.coeff (P - x.nfrac)).mpr h; omega
+    simp [h, h']
+  · have h' : x.coeff * (10 : Int) ^ (P - x.nfrac) < 0 := by
+      have : ¬ x.coeff * (10 : Int) ^ (P - x.nfrac) ≥ 0 := fun hh => h ((scaled_nonneg_iff x.coeff (P - x.nfrac)).mp hh)
+      omega
+    simp [h, h']
+
+/-- any flags: Display with precision `P ≥ p` is the precision-free Display of `x` re-expressed with `P` digits, when that is a
+    Decimal of the domain -/
+theorem display_prec_ge_scaled (prof : Profile) (tm : Mode) (f : Std.FmtSpec) (x : Dec) (P : Nat) (hx : Dom x) (hP : x.nfrac ≤ P)
+    (hP18 : P ≤ 18) (hs : Dom ⟨x.coeff * (10 : Int) ^ (P - x.nfrac), P⟩) :
+    display prof tm { f with prec := some P } x =
+      display prof tm { f with prec := none } ⟨x.coeff * (10 : Int) ^ (P - x.nfrac), P⟩ := by
+  have hd : decide (x.coeff * (10 : Int) ^ (P - x.nfrac) ≥ 0) = decide (x.coeff ≥ 0) := by
+    rw [decide_eq_decide]; exact scaled_nonneg_iff _ _
+  rw [display_prec_ge prof tm _ x P hx rfl hP hP18, display_spec prof tm _ _ hs, displaySpec_no_prec, hd, padIntegral_prec]
+
+/-- a precision `P < p`: the magnitude of the coefficient ROUNDED to `P` digits under the thread mode, the sign taken from `x` -/
+theorem display_prec_lt (prof : Profile) (tm : Mode) (f : Std.FmtSpec) (x : Dec) (P : Nat) (hx : Dom x) (hf : f.prec = some P)
+    (hP : P < x.nfrac) :
+    display prof tm f x = .ok (Std.padIntegral f (decide (x.coeff ≥ 0))
+      (Spec.render ((Spec.specRound tm x.coeff ((10 : Int) ^ (x.nfrac - P))).natAbs) P)) := by
+  rw [display_spec prof tm f x hx, displaySpec_unfold tm f _ _ P hf]
+  have hm : min P 18 = P := Nat.min_eq_left (by have := hx.2.2; omega)
+  have hge : ¬ P ≥ x.nfrac := by omega
+  simp only [hm, hge, if_false]
+
+/-- … which is the precision-free Display of `x.round(P)` (the rounding never fails: `C05.round_fewer_digits`) — unless a negative `x`
+    rounds to zero: Display keeps the sign of `x` (`-0.00`), the rounded Decimal has none (`0.00`) -/
+theorem display_prec_lt_round (prof : Profile) (tm : Mode) (f : Std.FmtSpec) (x r : Dec) (P : Nat) (hx : Dom x) (hP : P < x.nfrac)
+    (hr : round prof tm x P = .ok r) (hs : ¬ (x.coeff < 0 ∧ r.coeff = 0)) :
+    display prof tm { f with prec := some P } x = display prof tm { f with prec := none } r := by
+  rw [C05.round_fewer_digits prof tm x P hx hP] at hr
+  cases hr
+  obtain ⟨⟨k1, k2⟩, s1, s2⟩ := C05.specRound_dom tm x.coeff ((10 : Int) ^ (x.nfrac - P)) ⟨hx.1, hx.2.1⟩ (pow10_pos _)
+  have hd : Dom ⟨Spec.specRound tm x.coeff ((10 : Int) ^ (x.nfrac - P)), P⟩ := ⟨k1, k2, by have := hx.2.2; simp only; omega⟩
+  simp only at hs
+  have hsg : decide (Spec.specRound tm x.coeff ((10 : Int) ^ (x.nfrac - P)) ≥ 0) = decide (x.coeff ≥ 0) := by
+    rw [decide_eq_decide]
+    constructor
+    · intro h
+      by_cases hc : x.coeff ≥ 0
+      · exact hc
+      · have := s2 (by omega); exact absurd ⟨by omega, by omega⟩ hs
+    · intro h; exact s1 h
+  rw [display_prec_lt prof tm _ x P hx rfl hP, display_spec prof tm _ _ hd, displaySpec_no_prec, hsg, padIntegral_prec]
+
+/-- the excluded case, default flags: a negative `x` that rounds to zero prints `-0.00…`, its rounded value `0.00…` -/
+theorem display_prec_lt_neg_zero (prof : Profile) (tm : Mode) (x r : Dec) (P : Nat) (hx : Dom x) (hP : P < x.nfrac)
+    (hr : round prof tm x P = .ok r) (hneg : x.coeff < 0) (h0 : r.coeff = 0) :
+    display prof tm { prec := some P } x = .ok (45 :: Spec.render 0 P) ∧ display prof tm {} r = .ok (Spec.render 0 P) := by
+  rw [C05.round_fewer_digits prof tm x P hx hP] at hr
+  cases hr
+  simp only at h0
+  have hd : Dom ⟨0, P⟩ := by
+    have := hx.2.2
+    unfold Dom I128_MIN I128_MAX
+    simp only
+    omega
+  have hn : ¬ x.coeff ≥ 0 := by omega
+  constructor
+  · rw [display_prec_lt prof tm _ x P hx rfl hP, pad_plain, h0]
+    simp [hn]
+  · rw [h0]
+    exact display_default prof tm ⟨0, P⟩ hd
+
+example : display Profile.dev .heven { prec := some 4 } ⟨-125, 2⟩ = .ok [45, 49, 46, 50, 53, 48, 48] ∧          -- "-1.2500"
+    display Profile.dev .heven {} ⟨-12500, 4⟩ = .ok [45, 49, 46, 50, 53, 48, 48] := by decide
+example : display Profile.dev .heven { prec := some 1 } ⟨-125, 2⟩ = .ok [45, 49, 46, 50] ∧                       -- "-1.2"
+    round Profile.dev .heven ⟨-125, 2⟩ 1 = .ok ⟨-12, 1⟩ ∧ display Profile.dev .heven {} ⟨-12, 1⟩ = .ok [45, 49, 46, 50] := by decide
+-- the sign subtlety: `-0.004` with precision 2 prints "-0.00", while `round(2)` is the Decimal `0.00`, printed "0.00"
+example : display Profile.dev .heven { prec := some 2 } ⟨-4, 3⟩ = .ok [45, 48, 46, 48, 48] ∧
+    round Profile.dev .heven ⟨-4, 3⟩ 2 = .ok ⟨0, 2⟩ ∧ display Profile.dev .heven {} ⟨0, 2⟩ = .ok [48, 46, 48, 48] := by decide
+-- the scaled coefficient need not fit an i128: `Decimal::MAX` with 18 digits
+example : display Profile.release .heven { prec := some 1 } Dec.MAX =
+    .ok (Spec.render (I128_MAX * 10) 1) := by decide
 
 end Fpdec.Props.C11
